@@ -181,6 +181,8 @@ def enumerate_paths(cfg: CFG, start: Node, stop, edge_ok=None, limit: int = 4000
             elif lab in ("e", "p"):
                 continue
             if s in seen:
+                if s is start and stop(s):
+                    out.append(path + [(node, lab), (s, "")])  # a full loop iteration back to the start
                 continue
             stack.append((s, path + [(node, lab)], seen | {s}))
             if len(out) + len(stack) > limit:
